@@ -117,13 +117,21 @@ class Model:
 
     def supply(self, pattern, flags):
         """Answer a `need` request: compile the pattern with CPython and send the tree."""
+        # what CPython itself says about the pattern decides between "error" and "ok"; a pattern that CPython accepts but the
+        # translator cannot carry (too deep for its own recursion, outside the fragment) is "unsupported", never "error"
+        import warnings
+        try:
+            with warnings.catch_warnings():
+                warnings.simplefilter('ignore')
+                re.compile(pattern, flags)
+        except (re.error, OverflowError, RecursionError, ValueError):
+            self.call(['compile', pattern, str(flags), 'error', '0', ''])
+            return
         try:
             tree, ngroups, eff = rx.translate(pattern, flags, CACHE)
             self.call(['compile', pattern, str(flags), 'ok', str(ngroups), rx.to_wire(tree), str(eff)])
-        except rx.Unsupported:
+        except (rx.Unsupported, RecursionError, ValueError, re.error, OverflowError):
             self.call(['compile', pattern, str(flags), 'unsupported', '0', ''])
-        except (re.error, OverflowError, RecursionError):
-            self.call(['compile', pattern, str(flags), 'error', '0', ''])
 
     def op(self, fields):
         """Call with the compile-oracle loop.  Returns the reply fields."""
@@ -252,9 +260,16 @@ class Impl:
                 else:
                     setattr(mod, k, copy.deepcopy(v))
 
-    def render(self, src, safeMode=None, htmlReplacement=None, reset=None, callback=False):
+    def render(self, src, safeMode=None, htmlReplacement=None, reset=None, callback=False, abort=False):
         msgs = []
         cb = (lambda msg: msgs.append(msg.text)) if callback else None
+        if abort:
+            # a caller that gives up at the first diagnostic: its callback raises, the render call is abandoned where it stands
+            class Abort(Exception):
+                pass
+
+            def cb(msg):
+                raise Abort(msg.text)
         # only the options that are given are passed (the defaults of RenderOptions and of render() are part of the code
         # under test); a call with none at all alternates between render(src) and render(src, RenderOptions())
         kw = {k: v for k, v in (('safeMode', safeMode), ('htmlReplacement', htmlReplacement), ('reset', reset), ('callback', cb))
@@ -273,6 +288,8 @@ class Impl:
         except BudgetExceeded:
             return ('fuel', 'budget')
         except Exception as e:  # noqa
+            if abort and type(e).__name__ == 'Abort':
+                return ('aborted', str(e))
             return ('exc', EXC_KIND.get(type(e).__name__, type(e).__name__))
         if not isinstance(html, str):
             return ('exc', 'not-a-str')
